@@ -640,3 +640,137 @@ func ruleChunkRecordSources(e *Engine, r *Report) {
 	}, "the job stamps chunks with the wrong identity")
 	r.floor(rule, n, 45)
 }
+
+// ruleVarintDecodeLoops (C13): every varint decoding loop of the codecs
+// accumulates 7 payload bits per byte and stops at the first byte without the
+// continuation bit: the value shifted by the loop's shift counter is
+// `T(b & 0x7F)`, the counter advances by 7, and the same byte is compared with
+// 0x80 to leave the loop. A decoder that differs from the encoder's
+// 7-bit groups misreads every length/field above the affected boundary.
+func ruleVarintDecodeLoops(e *Engine, r *Report, minInst int, pkgs ...string) {
+	rule := "TBL-codec-varint-decode"
+	inPkg := map[*types.Package]bool{}
+	for _, p := range pkgs {
+		if pk := e.pkgTypes(p); pk != nil {
+			inPkg[pk] = true
+		}
+	}
+	isByteLoad := func(v ssa.Value) (ssa.Value, bool) {
+		v = stripConv(v)
+		u, ok := v.(*ssa.UnOp)
+		if !ok || u.Op != token.MUL {
+			return nil, false
+		}
+		if _, isIdx := u.X.(*ssa.IndexAddr); !isIdx {
+			return nil, false
+		}
+		return u, isByte(u.Type())
+	}
+	n := 0
+	for _, fn := range e.ScopeFuncs() {
+		if !inPkg[fnPkg(fn)] {
+			continue
+		}
+		forEachInstr(fn, func(in ssa.Instruction) {
+			sh, ok := in.(*ssa.BinOp)
+			if !ok || sh.Op != token.SHL {
+				return
+			}
+			// the shift amount is a loop counter (phi) stepping by a constant
+			phi, ok := stripConv(sh.Y).(*ssa.Phi)
+			if !ok {
+				return
+			}
+			step := int64(-1)
+			for _, ed := range phi.Edges {
+				if b, ok := stripConv(ed).(*ssa.BinOp); ok && b.Op == token.ADD && stripConv(b.X) == ssa.Value(phi) {
+					if c, ok := b.Y.(*ssa.Const); ok {
+						if v, isU := constantUint64(c); isU {
+							step = int64(v)
+						}
+					}
+				}
+			}
+			if step < 0 {
+				return
+			}
+			// the shifted value must involve a byte loaded from the input
+			var byteVal ssa.Value
+			masked := false
+			x := stripConv(sh.X)
+			if and, ok := x.(*ssa.BinOp); ok && and.Op == token.AND {
+				for _, pair := range [][2]ssa.Value{{and.X, and.Y}, {and.Y, and.X}} {
+					if bv, isB := isByteLoad(pair[0]); isB {
+						byteVal = bv
+						if c, ok := stripConv(pair[1]).(*ssa.Const); ok {
+							if v, isU := constantUint64(c); isU && v == 0x7F {
+								masked = true
+							}
+						}
+					}
+				}
+			} else if bv, isB := isByteLoad(x); isB {
+				byteVal = bv
+			}
+			if byteVal == nil {
+				return
+			}
+			n++
+			c := "varint loop in " + fname(fn)
+			if !masked {
+				// the exit branch of the hand-optimised decoder: the byte is known to be
+				// below 0x80 (nothing to mask) or it is the final, full-width group
+				bv := byteVal
+				isB := func(v ssa.Value) bool { return stripConv(v) == bv }
+				isShift := func(v ssa.Value) bool { return stripConv(v) == ssa.Value(phi) }
+				if ok, _ := e.guardedOnAllPaths(in, reqAny("",
+					reqCmp("", "<", isB, func(v ssa.Value) bool {
+						k, ok := stripConv(v).(*ssa.Const)
+						if !ok {
+							return false
+						}
+						u, isU := constantUint64(k)
+						return isU && u == 0x80
+					}),
+					reqCmp("", "==", isShift, func(v ssa.Value) bool { _, ok := stripConv(v).(*ssa.Const); return ok }))); ok {
+					masked = true
+				}
+			}
+			r.check(masked, rule, c+": payload bits masked with 0x7F", e.ipos(in), "b & 0x7F", "the byte is shifted into the value without masking off the continuation bit: every multi-byte varint decodes with bit 7 of each group set")
+			r.check(step == 7, rule, c+": shift advances by 7", e.ipos(in), "shift += 7", fmt.Sprintf("the shift counter advances by %d instead of 7", step))
+			// the same byte decides loop exit by comparison with 0x80
+			exit := false
+			if refs := byteVal.Referrers(); refs != nil {
+				for _, ref := range *refs {
+					cmp, ok := ref.(*ssa.BinOp)
+					if !ok {
+						if cv, isConv := ref.(*ssa.Convert); isConv {
+							if r2 := cv.Referrers(); r2 != nil {
+								for _, rr := range *r2 {
+									if c2, ok := rr.(*ssa.BinOp); ok && cmpString(c2.Op) != "" {
+										cmp = c2
+									}
+								}
+							}
+						}
+						if cmp == nil {
+							continue
+						}
+					}
+					if cmpString(cmp.Op) == "" {
+						continue
+					}
+					for _, o := range []ssa.Value{cmp.X, cmp.Y} {
+						if k, ok := stripConv(o).(*ssa.Const); ok {
+							if v, isU := constantUint64(k); isU && (v == 0x80 || v == 0x7F) {
+								exit = true
+							}
+						}
+					}
+				}
+			}
+			r.check(exit, rule, c+": continuation bit decides the end", e.ipos(in), "b compared with 0x80", "the loop no longer ends at the first byte below 0x80")
+		})
+	}
+	r.floor(rule, n, minInst)
+}
